@@ -381,6 +381,12 @@ REGISTRY = {
                         "the assignment of keys to shards is an arbitrary function in the theorem (xxhash in the implementation, another function in the driver: the observables do not depend on it)",
                         "every Seek target lies at or ahead of the cursor in iteration order, as the property requires; backward seeks are not generated"],
     },
+    "C15": {
+        "corr": lambda tier, seed: corr_engine("C15", tier, seed, "hostile,restarts,batches,merges,bigvals", 120, 3000, ops=35,
+                                               dflags=NOEV, oracle_props=["C15", "C01", "C05", "C02"]),
+        "assumptions": ["the theorems are about the copy-at-the-boundary discipline on an explicit heap (model/RefHeap.v): an engine that stores copies and returns copies is immune to a hostile caller; whether the Go code follows the discipline cannot be proved without a semantics of Go slices and is decided by execution: every generated scenario is run by a hostile caller (one key buffer and one value buffer reused for every Put / Delete / Get / Batch.Put / Batch.Delete / Batch.Get and overwritten after each return, every returned value overwritten by the caller and watched for later modification) against the value-semantic engine model, for all index types",
+                        "file-system calls do not fail"],
+    },
     "C16": {
         "corr": lambda tier, seed: corr_simple("C16", tier, seed, "lockgen", 12, 300, ["C16", "C02", "C01"],
                                                "harness/vh lockgen: second Opens of an open directory from the same process and from child processes (different configurations), Opens made to fail by a corrupt data file followed by a regular Open, races of 2-5 child processes on fresh and used directories (an owner-marker file detects two simultaneous holders), byte-level snapshot of the directory before and after every rejected Open; results compared with the lock-table model"),
